@@ -375,6 +375,9 @@ class LibRDEngine(RDEngineBase) :
 
     def iterate_n(self, n_iterations) :
         
+        if n_iterations <= 0 :
+            # no iteration is run: the completion status is left as it is.
+            return bool(self._simulation_unfinished)
         self._simulation_unfinished = self._lib.engineexport_iterate_n(n_iterations)
         return bool(self._simulation_unfinished)
 
